@@ -41,8 +41,10 @@ DocsApply == {
 BigDocsApply == {Wide(1001), Wide(1200), VObj(<< <<KA, Wide(1001)>> >>), TenA}
 
 \* ---- pointers worth trying in a document ----
+\* index tokens congruent to small indices modulo 2^32 / 2^64, and 2^31: they designate nothing
+BigIdx == {<<52, 50, 57, 52, 57, 54, 55, 50, 57, 54>>, <<52, 50, 57, 52, 57, 54, 55, 50, 57, 55>>, <<49, 56, 52, 52, 54, 55, 52, 52, 48, 55, 51, 55, 48, 57, 53, 53, 49, 54, 49, 54>>, <<49, 56, 52, 52, 54, 55, 52, 52, 48, 55, 51, 55, 48, 57, 53, 53, 49, 54, 49, 55>>, <<50, 49, 52, 55, 52, 56, 51, 54, 52, 56>>}
 PtrsOf(d) == {PointerTo(d, p) : p \in PathsOf(d)}
-Beyond(d) == UNION {{q \o <<47>> \o t : t \in {<<120>>, <<45>>, <<48>>, <<49>>, <<50>>, <<51>>, <<48, 49>>, <<>>, KA, <<97, 126, 49, 98>>, <<109, 126, 48, 110>>}} : q \in PtrsOf(d)}
+Beyond(d) == UNION {{q \o <<47>> \o t : t \in {<<120>>, <<45>>, <<48>>, <<49>>, <<50>>, <<51>>, <<48, 49>>, <<>>, KA, <<97, 126, 49, 98>>, <<109, 126, 48, 110>>} \cup BigIdx} : q \in PtrsOf(d)}
 Odd == {<<97>>, <<47, 126, 50>>, <<47, 97, 47, 126>>}
 Ptrs(d) == PtrsOf(d) \cup Beyond(d) \cup (IF Tier = "quick" THEN {<<97>>} ELSE Odd)
 
@@ -104,7 +106,11 @@ NestedUnsorted == {VObj(<< <<KA, VObj(<< <<KA, N1>>, <<KTI, N2>>, <<KB, N1>> >>)
                    VObj(<< <<KA, VObj(<< <<KA, N1>>, <<KB, N1>>, <<KTI, N2>> >>)>>, <<KB, N2>> >>),
                    VObj(<< <<KB, N2>>, <<KA, VObj(<< <<KA, N1>>, <<KTI, N1>>, <<KB, N1>> >>)>> >>),
                    VArr(<< VObj(<< <<KA, N1>>, <<KTI, N2>>, <<KB, N1>> >>), N1 >>)}
-PairUniverse == IF Tier = "quick" THEN PLeaf \cup ArrsOver({N1, N2}, 2) \cup ObjsOver({N1, N2}, {KA, KAA, KSL}, 2, TRUE) \cup NestedUnsorted
+\* numbers at the tolerance boundary (equal / one step beyond), same key, top level and one level down; pairs that straddle an
+\* integer are kept apart (PatchImpl.Straddle)
+PNums == {N_one, N_one_eps, N_one_2eps, N_one_3eps, N_one75, N_one75_2, N_one75_3, N_m_half, N_m_half_p2, N_m_half_p3}
+NumDocs == {VNum(n) : n \in PNums} \cup {VObj(<< <<KA, VNum(n)>> >>) : n \in PNums} \cup {VObj(<< <<KB, N1>>, <<KA, VObj(<< <<KB, VNum(n)>> >>)>> >>) : n \in {N_one, N_one_eps, N_one_2eps, N_m_half, N_m_half_p3}}
+PairUniverse0 == IF Tier = "quick" THEN PLeaf \cup ArrsOver({N1, N2}, 2) \cup ObjsOver({N1, N2}, {KA, KAA, KSL}, 2, TRUE) \cup NestedUnsorted
                                        \cup {VObj(<< <<KB, N1>>, <<KA, N2>>, <<KAA, N1>> >>), VObj(<< <<KA, N1>>, <<KTI, N2>>, <<KB, N1>> >>)}
                 ELSE PLeaf \cup ArrsOver({N1, N2}, 2) \cup ObjsOver({N1, N2}, PKeys, 2, TRUE) \cup NestedUnsorted
                      \cup ArrsOver({N1} \cup ObjsOver({N1, N2}, {KA, KAA}, 1, TRUE), 2)
@@ -115,6 +121,10 @@ PairUniverse == IF Tier = "quick" THEN PLeaf \cup ArrsOver({N1, N2}, 2) \cup Obj
                      \cup (IF Tier # "deep" THEN {} ELSE
                            ObjsOver({N1, N2}, {KA, KAA, KB}, 3, TRUE) \cup ArrsOver({N1, N2, VNull}, 3)
                            \cup ObjsOver({N1} \cup ObjsOver({N1, N2} \cup ObjsOver({N1, N2}, {KA, KAA}, 1, TRUE), {KA, KAA}, 1, TRUE), {KA, KSL}, 2, TRUE))
+
+\* members whose names start with a byte >= 0x80 next to ASCII names, with different key sets on the two sides
+HiDocs == ObjsOver({N1, N2}, {KA, KHi1, <<122>>}, 2, TRUE) \cup {VObj(<< <<KA, N1>>, <<KHi1, N2>>, <<<<122>>, N1>> >>), VObj(<< <<KHi3, N1>>, <<KA, N1>>, <<KHi1, N2>> >>)}
+PairUniverse == NumDocs \cup HiDocs \cup PairUniverse0
 
 Init == /\ phase = 0 /\ b = VNull
         /\ a \in (IF Mode = "apply" THEN DocsApply \cup (IF Tier = "quick" THEN {} ELSE Doc1 \cup BigDocsApply) ELSE IF Mode = "merge" THEN MergeUniverse ELSE PairUniverse)
@@ -139,6 +149,7 @@ Step ==
             /\ (Emit => PrintT(ToJson(<<"M", JV(a), JV(b'), JV(r)>>)))
     [] OTHER ->
          /\ b' \in PairUniverse
+         /\ Assert(\A x, y \in PNums \cup {N_one, N_two} : ~Straddle(x, y), "the pair universe must not contain numbers within the tolerance whose integer views differ")
          /\ LET p == GeneratePatchesImpl(a, b') r == ApplyRFC(a, p) IN
             Assert(r.ok /\ SemEq(r.doc, b', TRUE) /\ ((p.m = <<>>) <=> SemEq(a, b', TRUE)), <<"C17: create_patches transcription: the patch does not transform from into to", a, b', p>>)
          /\ LET g == GenMergeImpl(a, b') IN
